@@ -4,7 +4,7 @@
   stamp (with larger magnitude unless saturated) and writes no tree pointer.  Iterated over a
   list of slots (`remove_subtree` frees a whole subtree in document order).
 -/
-import XotModel.Lemmas.ArenaHistory
+import XotModel.Lemmas.ArenaStamp
 
 namespace XotModel
 namespace Arena
